@@ -682,6 +682,14 @@ impl Database {
             }
         );
 
+        if rows_affected > 0 {
+            // before the WAL flush below, so that the logged header page carries the new count
+            let page = storage.page_mut(0)?;
+            let header = TableFileHeader::from_bytes_mut(page)?;
+            let new_row_count = header.row_count().saturating_sub(rows_affected as u64);
+            header.set_row_count(new_row_count);
+        }
+
         drop(storage);
 
         self.flush_wal_if_autocommit(file_manager, schema_name, table_name, table_id as u32)?;
@@ -706,17 +714,6 @@ impl Database {
                     );
                 }
             }
-        }
-
-        if rows_affected > 0 {
-            let mut file_manager_guard = self.shared.file_manager.write();
-            let file_manager = file_manager_guard.as_mut().unwrap();
-            let storage_arc = file_manager.table_data_mut(schema_name, table_name)?;
-            let mut storage = storage_arc.write();
-            let page = storage.page_mut(0)?;
-            let header = TableFileHeader::from_bytes_mut(page)?;
-            let new_row_count = header.row_count().saturating_sub(rows_affected as u64);
-            header.set_row_count(new_row_count);
         }
 
         Ok(ExecuteResult::Delete {
